@@ -51,17 +51,27 @@ for m in muts:
         env = dict(os.environ, VERIF_REPO=w, VT_OUT=out)
         for chk in m['checks']:
             t0 = time.time()
+            import signal
+            pr = subprocess.Popen(
+                ['/venv/bin/python', '-m', 'vt.runner', chk,
+                 '--tier', a.tier, '--scale', a.scale],
+                cwd='/verif', env=dict(env, VT_WATCHDOG_S='600'),
+                stdout=subprocess.PIPE, stderr=subprocess.PIPE, text=True,
+                start_new_session=True)
             try:
-                r = subprocess.run(
-                    ['/venv/bin/python', '-m', 'vt.runner', chk,
-                     '--tier', a.tier, '--scale', a.scale],
-                    cwd='/verif', env=dict(env, VT_WATCHDOG_S='600'),
-                    capture_output=True, text=True, timeout=900)
+                so, se = pr.communicate(timeout=900)
             except subprocess.TimeoutExpired:
+                # kill this run's own process group only
+                os.killpg(pr.pid, signal.SIGKILL)
+                pr.communicate()
                 rows.append((m['name'], f'{chk}:HANG', tests, '', 900))
                 print(rows[-1], flush=True)
-                subprocess.run(['pkill', '-f', f'vt.runner {chk} --tier'])
                 continue
+
+            class _R:
+                pass
+            r = _R()
+            r.returncode, r.stdout, r.stderr = pr.returncode, so, se
             sigs = [l.strip()[11:] for l in r.stdout.splitlines()
                     if l.strip().startswith('signature:')]
             verdict = {0: 'MISSED', 1: 'caught'}.get(r.returncode,
